@@ -133,6 +133,21 @@ Theorem C14_gca_gca_structure : forall w0 w1 v0 v1,
 Proof. exact c14_gca_gca_structure. Qed.
 Print Assumptions C14_gca_gca_structure.
 
+(* --- end to end: for two arcs in general position (neither plane contains the polar axis, no endpoint and neither candidate
+       in the pole snap zone, circles not numerically parallel) gca_gca_intersection's model returns exactly the specified
+       common points --- *)
+Theorem C14_gca_gca_general_correct : forall w0 w1 v0 v1,
+  let x := c14_cross (c14_cross w0 w1) (c14_cross v0 v1) in
+  let q := c14_nsq w0 * c14_nsq w1 * c14_nsq v0 * c14_nsq v1 in
+  c14_small (c14_x x) q && c14_small (c14_y x) q && c14_small (c14_z x) q = false ->
+  x <> (0, 0, 0) ->
+  c14_z (c14_cross w0 w1) <> 0 -> c14_z (c14_cross v0 v1) <> 0 ->
+  c14_is_pole w0 = false -> c14_is_pole w1 = false -> c14_is_pole v0 = false -> c14_is_pole v1 = false ->
+  c14_is_pole x = false ->
+  c14_gca_gca w0 w1 v0 v1 = Some (c14_arc_cross w0 w1 v0 v1).
+Proof. exact c14_gca_gca_general_correct. Qed.
+Print Assumptions C14_gca_gca_general_correct.
+
 (* --- extreme latitude: the apex |n|^2 e_z - n_z n is on the circle and no point of the circle is higher --- *)
 Theorem C14_apex_highest : forall n q, n <> (0, 0, 0) -> c14_dot n q = 0 ->
   c14_dot n (c14_apex n) = 0 /\ c14_lat_le (c14_lat_of q) (c14_lat_of (c14_apex n)) = true.
